@@ -290,9 +290,8 @@ Conversion<Unit::DynamicViscosity, Unit::DynamicViscosity::PoundSecondPerSquareI
 }
 
 template <typename NumericType>
-inline const std::
-    map<Unit::DynamicViscosity, std::function<void(NumericType* values, const std::size_t size)>>
-        MapOfConversionsFromStandard<Unit::DynamicViscosity, NumericType>{
+inline constexpr auto MapOfConversionsFromStandard<Unit::DynamicViscosity, NumericType>{
+  MakeConversionTable<Unit::DynamicViscosity, NumericType>({
           {Unit::DynamicViscosity::PascalSecond,
            Conversions<Unit::DynamicViscosity, Unit::DynamicViscosity::PascalSecond>::
                FromStandard<NumericType>},
@@ -314,12 +313,12 @@ inline const std::
           {Unit::DynamicViscosity::PoundSecondPerSquareInch,
            Conversions<Unit::DynamicViscosity, Unit::DynamicViscosity::PoundSecondPerSquareInch>::
                FromStandard<NumericType>},
+})
 };
 
 template <typename NumericType>
-inline const std::map<Unit::DynamicViscosity,
-                      std::function<void(NumericType* const values, const std::size_t size)>>
-    MapOfConversionsToStandard<Unit::DynamicViscosity, NumericType>{
+inline constexpr auto MapOfConversionsToStandard<Unit::DynamicViscosity, NumericType>{
+  MakeConversionTable<Unit::DynamicViscosity, NumericType>({
       {Unit::DynamicViscosity::PascalSecond,
        Conversions<Unit::DynamicViscosity, Unit::DynamicViscosity::PascalSecond>::
            ToStandard<NumericType>                      },
@@ -340,6 +339,7 @@ inline const std::map<Unit::DynamicViscosity,
       {Unit::DynamicViscosity::PoundSecondPerSquareInch,
        Conversions<Unit::DynamicViscosity, Unit::DynamicViscosity::PoundSecondPerSquareInch>::
            ToStandard<NumericType>                      },
+})
 };
 
 }  // namespace Internal
